@@ -145,6 +145,12 @@ def vkey(v):
 # state
 
 
+def visits(n):
+    """loop-head visit bound of a check: the thorough tier (VERIF_DEEP=1, set by lib/main.py) explores one more iteration of every loop"""
+    import os
+    return n + int(os.environ.get("VERIF_DEEP", "0") or 0)
+
+
 class State:
     def __init__(self):
         self.frames = {}        # frame_id -> {local: Val}
